@@ -1,6 +1,7 @@
 (* C12 model driver: same case syntax and observations as drivers/C12.cpp.
      B <hex> ...    R B <toks>|<printed hex>|<toks>          S NOCRASH
      Q tok tok ...  R Q <toks>|<printed hex>                 S Q <toks>   (the tokens themselves, when all good)
+     L <hex> ...    R L <toks of //body newline x1>            S L K<//body>,N,I7831
      H <hex> ...    R H <header hex>|<cursor offset>         S NOCRASH
    The model is the *fixed* variant unless the environment variable C12_PINNED is set. *)
 let fx = match Sys.getenv_opt "C12_PINNED" with Some _ -> pinned | None -> fixed
@@ -81,6 +82,14 @@ let () =
               let bad = List.filter (fun t -> not (good tok_ops t)) ts in
               print_string ("S Q NOTGOOD " ^ show_tokens bad ^ "\n"))
          end
+       | "L" :: hs ->
+         (* a line comment "//" body, a newline, the identifier x1 *)
+         let body = zl_of_hex (String.concat "" hs) in
+         let src = List.map z_of_int [47; 47] @ body @ List.map z_of_int [10; 120; 49] in
+         print_string ("R L " ^ show_res (tokenizeT fx (cstring src)) ^ "\n");
+         if line_ok body then
+           print_string ("S L K" ^ hex_of_zl (List.map z_of_int [47; 47] @ body) ^ ",N,I7831\n")
+         else print_string "S L NOTGOOD\n"
        | "H" :: hs ->
          let h = String.concat "" hs in
          let buf = cstring (zl_of_hex h) in
